@@ -14,6 +14,10 @@ mod driver;
 mod engine;
 mod gridcodec;
 mod gridsim;
+mod kpsim;
+mod regmodel;
+mod regsim;
+mod regthreads;
 mod rng;
 mod util;
 
@@ -43,6 +47,18 @@ macro_rules! dispatch {
                 type $E = $crate::gridsim::GridSimC;
                 $body
             }
+            "kpsim" => {
+                type $E = $crate::kpsim::KpSim;
+                $body
+            }
+            "regsim" => {
+                type $E = $crate::regsim::RegSim;
+                $body
+            }
+            "regsim-threads" => {
+                type $E = $crate::regthreads::RegThreads;
+                $body
+            }
             other => {
                 eprintln!("unknown engine '{}'", other);
                 std::process::exit(2)
@@ -55,6 +71,8 @@ pub fn engines_of(property: &str) -> Vec<&'static str> {
     match property {
         "C02" => vec!["chunksim"],
         "C15" => vec!["gridsim-a", "gridsim-b", "gridsim-c"],
+        "C20" => vec!["kpsim"],
+        "C18" => vec!["regsim", "regsim-threads"],
         _ => vec![],
     }
 }
